@@ -420,3 +420,58 @@ M("C06", "dec-class-contextmanager-only-logs", C2, None, None, "C06.R6",
   edits=cmc("        if exc_type is not None and issubclass(exc_type, EOFError):\n            logger.debug(self.message)\n        return False\n"))
 M("C06", "dec-class-contextmanager-exit-raises-other-class", C2, None, None, "C06.R6",
   edits=cmc("        if exc_type is not None and issubclass(exc_type, EOFError):\n            raise RuntimeError(self.message)\n        return False\n"))
+
+# ================================================================================================ seventh round
+# R1: every integer field of the metadata is an unsigned quantity of the transported width.  A signed type of the same size
+# keeps the layout, the fixed size and every captured metadata, but the upper half of the values can neither be serialised
+# nor comes back unchanged; type aliases of the definition language are the same type
+M("C06", "cdef-pid-signed", CC, "    uint32 pid;\n", "    int32 pid;\n", "C06.R1")
+M("C06", "cdef-port-signed-alias", CC, "    uint16 port;\n", "    SHORT port;          // listener port\n", "C06.R1")
+M("C06", "cdef-ip-signed-long", CC, "    uint32 ip;\n", "    LONG ip;\n", "C06.R1")
+M("C06", "cdef-widths-exchanged-same-total", CC, None, None, "C06.R1", edits=[
+    (CC, "    uint8 flag;\n", "    uint16 flag;\n"), (CC, "    uint16 ver_build;\n", "    uint8 ver_build;\n")])
+T("C06", "twin-cdef-windows-type-aliases", CC, None, None, edits=[
+    (CC, "    uint32 pid;\n", "    DWORD pid;\n"), (CC, "    uint16 port;\n", "    WORD port;\n"), (CC, "    uint8 flag;\n", "    BYTE flag;\n"),
+    (CC, "    uint32 bid;\n", "    ULONG bid;           // Beacon ID\n")])
+
+# R9: the keys handed out for a metadata are those of that metadata: no element of state that outlives the call (registry,
+# memo) selected by something that does not determine the 16 random bytes
+REG = "_DERIVED_KEYS: dict = {}\n\n\n"
+M("C06", "keys-registry-by-bid-pid-in-recover", C2, None, None, "C06.R9", edits=[
+    (C2, DEC_DEF, REG + DEC_DEF),
+    (C2, REC, "                    known = _DERIVED_KEYS.get((metadata.bid, metadata.pid))\n                    if known is None:\n"
+              "                        aes_key, hmac_key = derive_aes_hmac_keys(metadata.aes_rand)\n"
+              "                        known = BeaconKeys(aes_key, hmac_key)\n                        _DERIVED_KEYS[metadata.bid, metadata.pid] = known\n"
+              "                    self.beacon_keys = known\n")])
+M("C06", "keys-registry-try-keyerror-setdefault", C2, None, None, "C06.R9", edits=[
+    (C2, DEC_DEF, REG + DEC_DEF),
+    (C2, FBM, "        try:\n            return _DERIVED_KEYS[metadata.bid]\n        except KeyError:\n"
+              "            return _DERIVED_KEYS.setdefault(metadata.bid, cls.from_aes_rand(metadata.aes_rand, iv=iv))\n")])
+M("C06", "keys-memo-by-iv-on-class", C2, FAR,
+  "        if iv in cls._memo:\n            return cls._memo[iv]\n        aes_key, hmac_key = derive_aes_hmac_keys(aes_rand)\n"
+  "        keys = cls._memo[iv] = cls(aes_key=aes_key, hmac_key=hmac_key, iv=iv)\n        return keys\n", "C06.R9")
+M("C06", "keys-instance-registry-by-beacon-id", C2, REC,
+  "                    beacon_id = metadata.bid\n                    if beacon_id not in self.metadata_cache:\n"
+  "                        self.metadata_cache[beacon_id] = BeaconKeys(*derive_aes_hmac_keys(metadata.aes_rand))\n"
+  "                    self.beacon_keys = self.metadata_cache[beacon_id]\n", "C06.R9")
+# a memo keyed by the random bytes themselves (alone or as part of the key) is not judged (the stored elements are not
+# followed): undecided, silent; keys the caller supplies / a plain conditional derivation are no look-up at all
+T("C06", "twin-keys-memo-by-aes-rand-undecided", C2, None, None, edits=[
+    (C2, DEC_DEF, REG + DEC_DEF),
+    (C2, FBM, "        keys = _DERIVED_KEYS.get(metadata.aes_rand)\n        if keys is None:\n"
+              "            keys = _DERIVED_KEYS[metadata.aes_rand] = cls.from_aes_rand(metadata.aes_rand, iv=iv)\n        return keys\n")])
+T("C06", "twin-keys-memo-by-bid-and-aes-rand-undecided", C2, None, None, edits=[
+    (C2, DEC_DEF, REG + DEC_DEF),
+    (C2, FBM, "        seed = bytes(metadata.aes_rand)\n        key = (metadata.bid, seed, iv)\n        try:\n            return _DERIVED_KEYS[key]\n        except KeyError:\n"
+              "            return _DERIVED_KEYS.setdefault(key, cls.from_aes_rand(seed, iv=iv))\n")])
+T("C06", "twin-keys-local-table-not-state", C2, FBM,
+  "        made = {}\n        made[metadata.bid] = cls.from_aes_rand(metadata.aes_rand, iv=iv)\n        return made[metadata.bid]\n")
+T("C06", "twin-keys-conditional-derivation", C2, REC,
+  "                    fresh = None\n                    if metadata.aes_rand:\n                        fresh = BeaconKeys(*derive_aes_hmac_keys(metadata.aes_rand))\n"
+  "                    self.beacon_keys = fresh or self.beacon_keys\n")
+# a cache keyed by the request the metadata was recovered from: the request determines the metadata (the seed is computed
+# in the function, not a parameter), nothing is claimed about such a key: undecided, silent
+T("C06", "twin-keys-cache-by-request-undecided", C2, REC,
+  "                    if http not in self.metadata_cache:\n"
+  "                        self.metadata_cache[http] = BeaconKeys(*derive_aes_hmac_keys(metadata.aes_rand))\n"
+  "                    self.beacon_keys = self.metadata_cache[http]\n")
